@@ -301,6 +301,10 @@ def history_config(draw):
         if kind == 'run':
             n = draw(st.integers(0, 5))
             steps.append(['run', [100 * (nruns + 1) + j for j in range(n)], draw(st.integers(0, 2)), draw(st.sampled_from([0, 0, 1, 2]))])
+            if n and draw(st.integers(0, 3)) == 0:
+                # a run whose user enqueue_fn refuses some (worker, input) pairs - what it leaves behind must not leak into later runs
+                # (round-4 seed C07-m8: refused inputs were counted as handed over, the next run dropped genuine results as stale and hung)
+                steps[-1].append(draw(st.lists(st.tuples(st.integers(0, 3), st.integers(0, n - 1)).map(list), min_size=1, max_size=2)))
             nruns += 1
         elif kind == 'run_aborted':
             # the user's input source raises in the middle of a run (the exception is the user's business; the pool must stay usable)
@@ -358,7 +362,15 @@ def run_history(case):
                     w.enqueues_this_run = 0
                 pre_dead_known = set(known_dead)
                 trace_start = len(sim.trace)
-                res = sim.run(inputs, extra=extra)
+                refuse_spec = step[4] if len(step) > 4 else []
+                sim.refuse = set((w_ % max(1, len(sim.workers)), inputs[j_]) for w_, j_ in refuse_spec if j_ < len(inputs))
+                refusing = bool(sim.refuse)
+                res = sim.run(inputs, extra=extra, use_enqueue_fn=True if refusing else None)
+                sim.refuse = set()
+                if refusing:
+                    out.label('run_with_refusing_enqueue_fn')
+                    if sim.refused:
+                        out.label('refusal_happened_in_history')
                 for w in lingering_at_start:
                     w.reap()
                 seg = sim.trace[trace_start:]
@@ -383,14 +395,16 @@ def run_history(case):
                     if missing:
                         out.viol('missing', site, f'run returned normally without results for {missing} (results {vals})')
                     # every worker that was alive at entry and stayed alive gets work when there is enough of it
-                    if len(inputs) >= len(alive_now) and not any(e[0] == 'died' for e in seg):
+                    if len(inputs) >= len(alive_now) and not any(e[0] == 'died' for e in seg) and not refusing:
                         idle = [w.index for w in alive_now if w.enqueues_this_run == 0]
                         if idle:
                             out.viol('live_worker_got_no_work', site + (':after_restart' if 'restarted' in [e[0] for e in sim.trace[:trace_start]] else ''),
                                      f'workers {idle} were alive for the whole run but received none of the {len(inputs)} inputs')
                 elif kind == 'poolerror':
                     alive = [w.index for w in sim.workers if w.alive]
-                    if alive:
+                    # (a run whose enqueue_fn refused something is judged by C08's single-run oracle - open findings F-C08-1/2 live there; here
+                    # it only prepares the state the NEXT run starts from)
+                    if alive and not refusing:
                         out.viol('poolerror_with_live_worker', site + (':after_restart' if any(e[0] == 'restarted' for e in sim.trace[:trace_start]) else ''),
                                  f'PoolError in {site} while workers {alive} are alive (no enqueue_fn involved)')
                     _multiset_check(res['partial'] or [], inputs, out, site + ':partial')
